@@ -99,13 +99,16 @@ def sha1SaltLoop (rb : Bytes) (rlim olim : Nat) : Nat → Nat → Nat → Bytes
         ++ sha1SaltLoop rb rlim olim fuel (r + 3) (o + 4)
     else []
 
+/-- `count` after the default and the two clamps of `gensalt_sha1crypt_rn` -/
+def sha1Clamp (count : Nat) : Nat :=
+  let count := if count = 0 then Gen.CRYPT_SHA1_ITERATIONS else count
+  let count := if count < 4 then 4 else count
+  if count > UINT_MAX then UINT_MAX else count
+
 /-- the iteration count `gensalt_sha1crypt_rn` prints (`uint32_t rounds`) -/
 def sha1Rounds (count : Nat) (rb : Bytes) : Nat :=
   let random := rbAt rb 0 + rbAt rb 1 * 256 + rbAt rb 2 * 65536 + rbAt rb 3 * 16777216
-  let count := if count = 0 then Gen.CRYPT_SHA1_ITERATIONS else count
-  let count := if count < 4 then 4 else count
-  let count := if count > UINT_MAX then UINT_MAX else count
-  (count - random % (count / 4)) % 2 ^ 32
+  (sha1Clamp count - random % (sha1Clamp count / 4)) % 2 ^ 32
 
 def gensaltSha1 (count : Nat) (rb : Bytes) (n osize : Nat) : WOut :=
   if n < 12 + 4 then .err .EINVAL else
